@@ -141,3 +141,22 @@ CHECKS["C12"] = {
     "outside": ["inputs longer than the byte bound (reached only through the per-step progress obligations)", "encoded-word / charset decoding", "the exact MIME tree of well-formed messages (structure equality) - only containment/ordering is decided"],
     "assumptions": [],
 }
+
+STMT_OPS = list(range(0, 15))
+
+CHECKS["C03"] = {
+    "explanation": "(H03) Mailbox.Store/Expunge/Copy/Move through their real go/ssa (actions, applyMessageFlags*, AddMessagesToMailbox, MoveMessagesFromMailbox, ...) on a relational model of the index, compared with the reference semantics of the command for every initial content within the bound, flag spelling and argument; (H03b) symbolic execution of the SQLite write/read operations (real go/ssa of internal/db_impl/sqlite3 writeOps/readOps, utils.ExecQuery, GenSQLIn, MapSliceToAny, xslices.Chunk) against a recording QueryWrapper: every statement gluon sends is a concrete string plus an argument list computed by Go code; decided for every id value: statement starts with an SQL verb and addresses a schema table, placeholders = bound arguments, every input element is bound exactly once per statement kind (chunks partition the input), for list lengths on both sides of the batching limits.",
+    "harnesses": [
+        {"name": "statements", "pkg": "internal/db_impl/sqlite3", "pkgname": "sqlite3", "entry": "VerifC03Statements", "files": ["zz_verif_stmt.go"],
+         "params": {"quick": grid(op=STMT_OPS, n=[1, 3], flags=[2]) + grid(op=[0, 1, 2, 5, 6, 7], n=[1001], flags=[1]),
+                    "thorough": grid(op=STMT_OPS, n=[1, 2, 3], flags=[0, 1, 2]) + grid(op=[0, 1, 2, 3, 4, 5, 6, 7, 8, 11], n=[500, 501, 1000, 1001, 2001], flags=[1])},
+         "cover": [], "max_steps": 400000000},
+        {"name": "commands", "pkg": "internal/state", "pkgname": "state", "entry": "VerifC03Commands",
+         "files": ["zz_verif_c03.go", "zz_verif_fixture.go", "zz_verif_world.go"], "with": ["verifdb"], "gen_stubs": [TX_STUB],
+         "params": {"quick": grid(nA=[1, 2]), "thorough": grid(nA=[1, 2, 3])},
+         "cover": ["command-ok"]},
+    ],
+    "stubs": ["internal/verifdb relational model behind db.Client (byte-exact flag values, AUTOINCREMENT UIDs, UNIQUE constraints)", "state.Connector -> succeeds, no remote updates", "utils.QueryWrapper -> recorder that accepts every statement; row iteration reports no rows"],
+    "outside": ["what a well-formed, correctly bound statement does inside SQLite (C08, not applicable)", "message bytes in the store (C09)"],
+    "assumptions": [],
+}
